@@ -7,6 +7,8 @@
 use re::math::float::f32 as backend;
 use re::math::point::pt3;
 use re::render::raster::{scan, ScreenPt};
+use re::render::tex::{uv, SamplerRepeatPot, Texture};
+use re::util::buf::Buf2;
 
 pub const BACKEND: &str = if cfg!(feature = "std") {
     "std"
@@ -115,11 +117,26 @@ pub fn rh(x: f32) -> String {
     format!("{xs} {} {n}", first.map(|y| y.to_string()).unwrap_or("-".into()))
 }
 
+/// C12 through this configuration: `sample_abs` of the repeating / clamping sampler on an owned
+/// texture whose texels hold their own coordinates; "u,v" of the texel read.  (`SamplerClamp` only
+/// exists with an fp feature.)
+pub fn tx(smp: &str, dw: u32, dh: u32, u: f32, v: f32) -> String {
+    let tex = Texture::from(Buf2::new_with((dw, dh), |x, y| ((x as u64) << 32) | y as u64));
+    let t: u64 = match smp {
+        "rep" => SamplerRepeatPot::new(&tex).sample_abs(&tex, uv(u, v)),
+        #[cfg(any(feature = "std", feature = "libm", feature = "mm"))]
+        "cl" => re::render::tex::SamplerClamp.sample_abs(&tex, uv(u, v)),
+        _ => return "na".into(),
+    };
+    format!("{},{}", t >> 32, t & 0xFFFF_FFFF)
+}
+
 /// Answers one request (tokens after the op's back-end name have been stripped by the caller):
 ///   v <fn> <a> [<b>]               -> bits of the result | "na"
 ///   d <fn> <start> <count> [<b>]   -> "<fnv> <nwrong> <first wrong>": digest of canon(result) over consecutive bit patterns of a
 ///   s <fn> <start> <count> <stride> [<b>] -> results for a strided sweep, space separated bits
 ///   rh <x>                          -> "<xs.start> <xs.end> <y> <n>"
+///   tx <rep|cl> <dw> <dh> <u> <v>   -> "<u>,<v>" | "na"
 pub fn serve(t: &[&str]) -> String {
     match t[0] {
         "v" => {
@@ -168,6 +185,7 @@ pub fn serve(t: &[&str]) -> String {
             out.trim_end().to_string()
         }
         "rh" => rh(pf(t[1])),
+        "tx" => tx(t[1], t[2].parse().unwrap(), t[3].parse().unwrap(), pf(t[4]), pf(t[5])),
         "backend" => BACKEND.to_string(),
         other => format!("unknown-request:{other}"),
     }
